@@ -115,6 +115,7 @@ func VerifGroupStop(which int) {
 	case 3:
 		g.Stop()
 	}
+	vJitter()
 	g.StopAndWait()
 	vAtomic(func() { l.stopped = true })
 	vAssert(l.running == 0, "stopandwait/nothing-running-when-it-returns")
